@@ -42,6 +42,13 @@ def mid_code(keep):
 INIT = asm(["CALLER", 0, "SSTORE", "ORIGIN", 1, "SSTORE", 1, 0, "RETURN"])
 
 
+def _as_int(c):
+    try:
+        return int(str(c))
+    except ValueError:
+        return -1
+
+
 class Rec:
     def __init__(self):
         self.k = 0
@@ -130,8 +137,20 @@ def make_prank_case(rng, length):
             r.mem(RET, 4)
             feats.add("DELEGATECALL-no-prank")
         else:
-            target = rng.choice([REC1, REC1, REC2, MID, MID2, FORK])
+            target = rng.choice([REC1, REC1, REC2, MID, MID2, FORK, "sym", "sym"])
             kind = rng.choice(["CALL", "CALL", "STATICCALL"])
+            if target == "sym":
+                # the callee is a symbolic address (calldata word): halmos forks over the accounts it may alias; every alias is called
+                # with the same (pranked) sender.  The recorders accept any call data.
+                i = rng.randrange(ncd)
+                r.toks += zero_ret(4)
+                r.toks += [128, RET, 0, 0] + ([0] if kind == "CALL" else []) + [4 + 32 * i, "CALLDATALOAD", 0xFFFF, kind]
+                r.top()
+                r.mem(RET, 4)
+                feats.add(f"{kind}->symbolic-target" + (":" + active if active else ""))
+                if active == "once":
+                    active = None
+                continue
             val = 1 if (kind == "CALL" and target in (REC1, REC2) and rng.random() < 0.25) else 0
             r.toks += zero_ret(4)
             if target in (MID, MID2, FORK):
@@ -155,6 +174,9 @@ def make_prank_case(rng, length):
                          gen_features=sorted(feats))
     case.foundry = True
     case.default_tape = [0] * 8
+    # an input address (a pranked sender, a call target) that coincides with the address halmos assigns to a contract created on the path is
+    # degenerate: the creator and the created account would be the same account
+    case.exclude_input = lambda inp, creates: any(_as_int(c) in {w & ((1 << 160) - 1) for w in inp.cd} | {inp.caller, inp.origin} for c in creates)
     return case
 
 
@@ -271,4 +293,7 @@ def make_state_case(rng, length):
                          bal_addrs=[ROOT, REC1, REC2, EOA1, EOA2, FRESH, 0x2000], gen_features=sorted(feats))
     case.foundry = True
     case.default_tape = [0] * 8
+    # an input address (a pranked sender, a call target) that coincides with the address halmos assigns to a contract created on the path is
+    # degenerate: the creator and the created account would be the same account
+    case.exclude_input = lambda inp, creates: any(_as_int(c) in {w & ((1 << 160) - 1) for w in inp.cd} | {inp.caller, inp.origin} for c in creates)
     return case
